@@ -81,6 +81,9 @@ def main():
         text = open(patch).read()
         files, rel = relevant_properties(text)
         meta.update({'files': files, 'relevant_properties': rel, 'alarms': {p: v[1][:4] for p, v in alarms.items()}})
+        # exit 2 without any VIOLATION line: the analysis says it cannot see what its rule is written for (a different
+        # algorithm) and gives no verdict -- recorded, and expected to stay exactly that
+        meta['no_verdict_for'] = sorted(p for p, v in alarms.items() if v[0] == 2 and not any('VIOLATION' in l for l in v[1]))
         try:
             meta['notes'] = open(os.path.join(d, 'notes.txt')).read()[:1500]
         except OSError:
